@@ -1184,3 +1184,84 @@ def r8g_config_text_goes_to_the_parser(ctx):
                                "on the configuration from the raw text" % f.id)
     r.floor("TOML deserialiser calls", n, 1)
     return r
+
+
+def r8h_dependency_edges_kept(ctx):
+    r = Result("R8h", "in the functions that build the cycle / scope-mismatch findings, a predicate that drops elements of a "
+                      "definition's `dependencies` (filter / retain / skip_while / take_while / filter_map over an iterator of "
+                      "that field) only asks whether the name is a known fixture: it contains no equality comparison. A "
+                      "dependency compared with the fixture's own name and dropped (\"an override requests its parent\") removes "
+                      "the self-edge of a fixture that really depends on itself whenever another file defines the name too")
+    from .r5 import _slice_fields
+    crate = ctx.bin
+    pat = re.compile(r"\b(FixtureCycle|ScopeMismatch)\b")
+    roots = set()
+    for f in crate.real_fns():
+        for _bb, _si, _pl, rv, _sp in f.assigns():
+            if rv[0] == "agg" and rv[1][0] == "adt" and pat.search(rv[1][1]):
+                roots.add(f.root)
+    n = 0
+    for root in sorted(roots):
+        for g in [x for x in crate.real_fns() if x.root == root]:
+            for bb, c in g.calls():
+                meth = (c.get("fn") or c.get("res") or "").rsplit("::", 1)[-1]
+                if meth not in ("filter", "retain", "skip_while", "take_while", "filter_map") or not c["args"]:
+                    continue
+                if not any(nm == "dependencies" for _o, nm in _slice_fields(g, c["args"][0])):
+                    continue
+                n += 1
+                cmp_ = []
+                for cid, _loc in c.get("clos", []):
+                    cf = crate.fns.get(cid)
+                    if cf is None:
+                        continue
+                    for _b2, c2 in cf.calls():
+                        if c2.get("fn") in ("std::cmp::PartialEq::eq", "std::cmp::PartialEq::ne") and not c2["span"][4].startswith("macro:"):
+                            cmp_.append(crate.span_str(c2["span"]))
+                    for _b2, _s2, _p2, rv2, sp2 in cf.assigns():
+                        if rv2[0] == "bin" and rv2[1] in ("Eq", "Ne") and not (sp2[4] if len(sp2) > 4 else "").startswith("macro:"):
+                            cmp_.append(crate.span_str(sp2))
+                key = "R8h|%s|%s over dependencies compares" % (root, meth)
+                if cmp_:
+                    r.violate(key, "%s drops dependency edges by an equality comparison (%s)" % (root.split("::")[-1], cmp_[0]))
+                else:
+                    r.ok(sample={"in": root.split("::")[-1], "predicate": meth, "asks_only": "known fixture?"})
+    r.counts["predicates_over_dependencies"] = n  # no floor: a loop with an `if` instead of a filter has no such predicate
+    return r
+
+
+def r11f_unused_report_ignores_plugin_flag(ctx):
+    r = Result("R11f", "the unused-fixture query (by role: returns (file, name) pairs) does not read a definition's `is_plugin` "
+                       "flag: workspace-local pytest11 plugins are project fixtures and belong in the report; only third-party "
+                       "definitions are skipped")
+    from .. import roles
+    crate = ctx.bin
+    n = 0
+    for fid in sorted(roles.unused_list_fns(ctx)):
+        f = crate.fns[fid]
+        n += 1
+        g = f  # the query's own body and closures: what it calls (the resolver) legitimately ranks by origin
+        reads = set()
+        for h in [g] + [x for x in crate.real_fns() if x.root == f.id and x.id != f.id]:
+            for b in h.blocks:
+                places = []
+                for st in b["s"]:
+                    if st[0] == "=":
+                        from ..sel import _rv_places
+                        places += [pl for pl in _rv_places(st[2]) if pl is not None]
+                if b["t"][0] == "call":
+                    places += [op_place(a) for a in b["t"][1]["args"] if op_place(a) is not None]
+                elif b["t"][0] == "switch" and op_place(b["t"][1]) is not None:
+                    places.append(op_place(b["t"][1]))
+                for pl in places:
+                    for o, nm in proj_fields(place_projs(pl)):
+                        if o.endswith("::FixtureDefinition"):
+                            reads.add(nm)
+        key = "R11f|%s|reads is_plugin" % fid
+        if "is_plugin" in reads:
+            r.violate(key, "%s consults `is_plugin`: fixtures of a workspace-local plugin are dropped from (or treated specially in) "
+                           "the unused report" % fid.split("::")[-1])
+        else:
+            r.ok(sample={"unused_query": fid.split("::")[-1], "definition_fields_read": sorted(reads)})
+    r.floor("unused-fixture queries", n, 1)
+    return r
